@@ -152,7 +152,10 @@ def judge(ctx, text, family, base_accepted=None, junk=True):
     if cls == 'accepted' and junk:
         # consumed in full: the same text followed by something that cannot continue any construct must not be accepted
         j = JUNK[sum(map(ord, text)) % len(JUNK)]
-        for sep in (' ', '\n'):
+        # separators: the language's own fillers, and white space that is NOT a filler of the language (carriage return,
+        # vertical tab, form feed, no-break and typographic spaces, line separator): nothing may hide the junk
+        exotic = ['\r', '\x0b', '\x0c', '\xa0', '\u2003', '\u2028', '\x85', '\x1c', '\u3000'][sum(map(ord, text)) % 9]
+        for sep in (' ', '\n', exotic, ' ' + exotic + ' '):
             c2, d2 = read(text + sep + j)
             ctx.count()
             if c2 == 'accepted':
